@@ -72,9 +72,9 @@ def _quiet(f):
 
 
 @_quiet
-def _impl(case, vec_x, vec_y):
+def _impl(case, vec_x, vec_y, classes=None):
     """canonical observable of the real operator; never raises"""
-    spec = CLASSES[case["cls"]]
+    spec = (classes or CLASSES)[case["cls"]]
     try:
         op = spec.build(case)
     except _Skip:
@@ -143,10 +143,10 @@ def _vdot(a, b):
 
 
 @_quiet
-def oracle(case):
+def oracle(case, classes=None):
     """the property on the REAL code only; returns None or (what, signature)"""
     import random
-    spec = CLASSES.get(case.get("cls"))
+    spec = (classes or CLASSES).get(case.get("cls"))
     if spec is None:
         return None
     try:
@@ -209,6 +209,10 @@ def oracle(case):
                 back = U.to_flat(U.apply_checked(op, U.apply_checked(op, fy, 2, problems), 8, problems), tgt)
                 if not np.array_equal(back, y1):
                     return (f"{cls}: A^-H A^H y != y", sig("adjoint-inverse"))
+        if hasattr(spec, "extra_oracle"):
+            r = spec.extra_oracle(case, op, rng)
+            if r is not None:
+                return (f"{cls}: {r[0]}", sig(r[1]))
     except Exception as e:
         return (f"{cls}: apply raised {type(e).__name__}: {str(e)[:120]} on an operator its constructor accepted",
                 sig("apply-error", error=type(e).__name__))
@@ -249,9 +253,9 @@ def shrink(case):
                 yield c
 
 
-def _cases(ctx, per_class, per_malformed):
+def _cases(ctx, per_class, per_malformed, classes=None):
     cases = []
-    for name, spec in CLASSES.items():
+    for name, spec in (classes or CLASSES).items():
         for _ in range(per_class):
             cases.append((spec.gen(ctx.rng, ctx.quick), True))
         for _ in range(per_malformed):
@@ -262,13 +266,13 @@ def _cases(ctx, per_class, per_malformed):
     return cases
 
 
-def _corpus():
+def _corpus(pid="C02"):
     import glob
     import json
     import os
     from core.ctx import VERIF
     out = []
-    for p in sorted(glob.glob(os.path.join(VERIF, "corpus", "C02", "*.json"))):
+    for p in sorted(glob.glob(os.path.join(VERIF, "corpus", pid, "*.json"))):
         try:
             d = json.load(open(p))
             out.append(d.get("case", d))
@@ -278,9 +282,14 @@ def _corpus():
 
 
 def run(ctx):
-    per_class = ctx.n(14, 150)
-    per_mal = ctx.n(4, 20)
-    cases = [(c, True) for c in _corpus() if c.get("cls") in CLASSES] + _cases(ctx, per_class, per_mal)
+    run_table(ctx, CLASSES, DRIVER, ctx.n(14, 150), ctx.n(4, 20), "C02")
+
+
+def run_table(ctx, classes, driver, per_class, per_mal, pid):
+    """correspondence + oracle for every class of a class table (shared with C35)"""
+    DRIVER = driver
+    CLASSES = classes
+    cases = [(c, True) for c in _corpus(pid) if c.get("cls") in CLASSES] + _cases(ctx, per_class, per_mal, classes)
     lines, meta = [], []
     for case, valid in cases:
         spec = CLASSES[case["cls"]]
@@ -312,7 +321,7 @@ def run(ctx):
         probes.append((x, y))
     outs = ctx.model(DRIVER, lines2)
     for (case, spec), m, (x, y) in zip(meta, outs, probes):
-        impl, op = _impl(case, x, y)
+        impl, op = _impl(case, x, y, classes)
         if impl is None:
             ctx.stat("skipped")
             continue
@@ -330,7 +339,7 @@ def run(ctx):
         ctx.compare(case, impl, cm, note=f"{case['cls']}: dense matrices of all advertised modes / apply / error kind, "
                                          f"real operator vs Lean model", nontrivial=nontrivial)
         if "error" not in impl or impl["error"].startswith("apply:"):
-            r = oracle(case)
+            r = oracle(case, classes)
             if r is not None:
                 ctx.counterexample(case, r[0], r[1])
 
